@@ -149,6 +149,11 @@ def run_progs(shard, rec, B):
                     circ = res[0]
                     for item in ins:
                         roundtrip(rec, B, sub, circ, item, dict(desc, config=sub), nt)
+                    # every layer of the (compiled) circuit is a unitary of its own: used alone, its backward undoes its forward
+                    if comp != "none" and variant == "built":
+                        for li, layer in enumerate(circ.layers_forward()):
+                            if hasattr(layer, "gates") and layer.gates:
+                                roundtrip(rec, B, "layer.of_compiled_circuit.%s" % comp, layer, ins[li % len(ins)], dict(desc, config=sub, layer=li), nt)
                     # a copy taken AFTER the circuit has been used (gates may have cached derived maps by now) and,
                     # for compiled ones, a copy that is compiled again from its own gates
                     if variant == "built" and hasattr(circ, "copy"):
